@@ -737,6 +737,36 @@ class Sim:
                 if os.path.exists(pth):
                     os.remove(pth)
             h.probe("device_restored")
+        dd = scn.get("device_derived")
+        if dd:
+            # device life cycle: the run uses a Device derived from the meshed one (a copy, a deep copy, a
+            # pickled copy, or the re-meshed result of an identity transform), as a script that prepares
+            # variants of one device does; "copy+orig-moved" then moves the original in place
+            import copy as _copy
+            import pickle as _pickle
+
+            if dd == "copy":
+                device = device.copy(with_mesh=True)
+            elif dd == "copy+orig-moved":
+                orig = device.copy(with_mesh=True)
+                device = orig.copy(with_mesh=True)
+                xi_ = dev_spec["layer"]["xi"]
+                orig.translate(1.3 * xi_, -0.7 * xi_, inplace=True)
+                self._orig_device = orig
+            elif dd == "deepcopy":
+                device = _copy.deepcopy(device)
+            elif dd == "pickle":
+                device = _pickle.loads(_pickle.dumps(device))
+            elif dd in ("rotate0", "scale1") and self.mesh_from is None:
+                new_dev = device.rotate(0) if dd == "rotate0" else device.scale(xfact=1, yfact=1)
+                m_ = dev_spec.get("mesh", {})
+                mel_ = m_.get("max_edge_length", 0)
+                try:
+                    new_dev.make_mesh(max_edge_length=(mel_ * dev_spec["layer"]["xi"] if mel_ else 0), min_points=m_.get("min_points"), smooth=m_.get("smooth", 0))
+                except Exception as e:
+                    raise Discard(f"mesh: {type(e).__name__}: {str(e)[:80]}")
+                device = new_dev
+            h.probe("device_derived")
         h.device = device
         if device.terminals and not scn.get("allow_empty_terminal"):
             for ti in device.terminal_info():
@@ -809,14 +839,41 @@ class Sim:
 
         if sib and sib["when"] == "before":
             make_sibling()
-        solver = tdgl.TDGLSolver(
-            device,
-            options,
-            applied_vector_potential=A_obj,
-            terminal_currents=currents,
-            disorder_epsilon=eps,
-            **kw,
-        )
+        if scn.get("entry") == "function":
+            # the documented convenience entry point tdgl.solve(): the solver is constructed by the
+            # library's own wrapper from the user's arguments (its solve() call is deferred so that the
+            # seams can be installed on the object the wrapper built)
+            import tdgl.solver.solve as _solve_mod
+
+            real_cls = _solve_mod.TDGLSolver
+            made = []
+
+            class _Deferred:
+                def solve(self_d):
+                    return None
+
+            def factory(*a, **k):
+                made.append(real_cls(*a, **k))
+                return _Deferred()
+
+            _solve_mod.TDGLSolver = factory
+            try:
+                tdgl.solve(device, options, applied_vector_potential=A_obj, terminal_currents=currents, disorder_epsilon=eps, **kw)
+            finally:
+                _solve_mod.TDGLSolver = real_cls
+            if len(made) != 1:
+                raise HarnessError(f"tdgl.solve constructed {len(made)} solvers")
+            solver = made[0]
+            h.probe("entry_function")
+        else:
+            solver = tdgl.TDGLSolver(
+                device,
+                options,
+                applied_vector_potential=A_obj,
+                terminal_currents=currents,
+                disorder_epsilon=eps,
+                **kw,
+            )
         if sib and sib["when"] == "after":
             make_sibling()
         self.A_obj = A_obj
@@ -859,7 +916,7 @@ class Sim:
         try:
             try:
                 solver = self.construct()
-            except Discard:
+            except (Discard, HarnessError):
                 raise
             except BaseException as e:
                 h.construct_error = e
